@@ -304,7 +304,9 @@ func CompliesStringer(src types.Type) bool {
 		return false
 	}
 
-	obj, _, _ := types.LookupFieldOrMethod(named, false, named.Obj().Pkg(), "String")
+	// Look the method up in the type as it is: a pointer to a defined type has the pointer
+	// receiver methods as well, a pointer to an interface has none.
+	obj, _, _ := types.LookupFieldOrMethod(src, false, named.Obj().Pkg(), "String")
 	if obj == nil {
 		return false
 	}
